@@ -13,8 +13,8 @@ type Prop struct {
 	Mons func() []core.Monitor
 	Run  func(c *core.Ctx)
 	// Replay handles "custom" witnesses; history witnesses are replayed generically.
-	Replay func(c *core.Ctx, w *core.Witness) bool
-	Floors []core.Floor
+	Replay  func(c *core.Ctx, w *core.Witness) bool
+	Floors  []core.Floor
 	NeedVFS bool
 	NeedIn  bool
 }
